@@ -13,6 +13,9 @@ NOT_YET = {}
 CHECKS["C01"] = ("reference-model monitor: generated core-language programs (typed mini-AST) executed by a reference interpreter and by the real pipeline (ferret -> embedded QBE -> as/ld -> native run, stdout to a file); thorough adds valgrind memcheck on a share of the executables; pinned probe programs for every fixed/open finding",
  "Held on N generated programs: each compiled natively without being rejected and printed exactly the reference interpreter's lines with the same termination kind, across all integer widths with boundary constants, casts, truncating division, structs/methods/by-value passing, enums+match, fixed and dynamic arrays, strings, recursion, closures, results with catch, references, loops with break/continue and observable evaluation order. Not a proof: strength = generator diversity (feature histogram in the evidence).",
  "the reference interpreter is the rig's reading of the stated semantics; constructs the property does not pin are not generated; the QBE register-allocator abort (kf-C01-rega) removes about 7% of generated programs from the comparison", "DESIGN.md §3 C01")
+CHECKS["C02"] = ("relational monitor: the same generated program (integer/struct/array/enum/loop programs, f32/f64 arithmetic programs, pinned probes) compiled by the real compiler for native and wasm; native executable vs .wasm under node with the shipped runtime.js; numeric comparison of float lines, termination-kind comparison",
+ "Held on N programs accepted by both back ends: identical value sequences (floats within 1e-12 / 1e-5 for f32) and the same termination kind (normal vs panic/trap) on pointer size 8 (native) and 4 (wasm), including heap growth in runtime.js and out-of-bounds panics.",
+ "programs rejected by either target or crashing the compiler are out of scope and only counted; the wasm back end lacks closures, results and strings, so those features are compared by C01 only", "DESIGN.md §3 C02")
 CHECKS["C06"] = ("verdict monitor by construction over the real type checker (in-process pool + CLI confirmation), complete enumeration of place kind x access path x mutation form x context with a mutable-binding control group; native value witness for wrongly accepted cases",
  "Exhaustive over the finite product the property names (2359 mutants + controls): every program applying one mutation form to one immutable place was rejected by the real compiler while the same program with the binding made mutable was accepted, so each verdict is attributable to the immutability rule.",
  "the enumerated product is the rig's reading of the property's dimensions; syntactic contexts outside the seven listed are not covered", "DESIGN.md §3 C06")
